@@ -10,13 +10,26 @@ import core
 from core import Built
 
 PROPERTY = "C08"
-CLASSES = ["c05", "c04", "c06", "c03", "c02", "c01"]          # format modules providing open_impl/stream_prefix/truth_reader
+CLASSES = ["c05", "c04", "c06", "c03", "c02", "c01", "c01x", "c01v"]   # format modules providing open_impl/stream_prefix/truth_reader
+# c01x = QCOW2 with extended L2 entries whose sub-cluster bitmaps are partially written clusters (gen_qcow2 "holes"), dense maps,
+#        histories directed at the cluster boundaries (short reads next to long reads spanning a boundary)
+# c01v = QCOW2 with internal snapshots, several streams over one file handle (the active image, snapshots[j].open(), a snapshot
+#        opened twice), one interleaved history; the views share host clusters / compressed blobs and hold the same guest
+#        cluster with different content (compressed in several views)
+MODULE = {"c01x": "c01", "c01v": "c01"}
+PER_QUICK = {"c01x": 14, "c01v": 24}
+PER_THOROUGH = {"c01x": 200, "c01v": 300}
 RULE = ("for every stream class: generated image (the class's own generator) × stream buffer size in {512, 1536, 4096, 8192, "
         "65536, 1 MiB} (sector multiples) × a random history of 12..60 operations (quick) drawn from seek SET/CUR/END incl. negative "
         "and past-the-end, read n (0, small, large, past the end, -1), readinto, readall, peek, readoffset, tell and read_sectors "
         "where the class has it; outputs compared op by op with the immutable-array specification evaluated on construction truth "
-        "and with the Lean stream model. Non-trivial = model WF and the history contains a seek, a peek and a read crossing a "
-        "buffer boundary; distinct (recipe, history) hash.")
+        "and with the Lean stream model. QCOW2 additionally: extended-L2 images of partially written clusters with histories "
+        "directed at cluster boundaries (a short read before / after the boundary next to long reads spanning it, offsets chosen "
+        "relative to the buffer size), and images with 1..3 internal snapshots read through 2..4 streams over the same file handle "
+        "(active image, snapshot views incl. one snapshot opened twice) in one interleaved history with probes of the same guest "
+        "cluster through every stream; the model answers each stream's sub-history (snapshot_view_independent / "
+        "active_view_independent: the views do not interact). Non-trivial = model WF and the history contains a seek, a peek and a "
+        "read crossing a buffer boundary; distinct (recipe, history) hash.")
 ASSUMPTIONS = ["dissect.util.stream.AlignedStream is an external dependency: transcribed in Hv/Stream.lean and tied by this correspondence",
                "functools.lru_cache / cached_property are semantically transparent because the underlying file is immutable (C09)"]
 TIMEOUT_CASE = 40.0
@@ -25,14 +38,35 @@ _mods = {}
 
 
 def mod(name):
+    name = MODULE.get(name, name)
     if name not in _mods:
         _mods[name] = importlib.import_module(name)
     return _mods[name]
 
 
-def gen_history(rng, size, align, ss, has_sectors, n):
+def gen_edge_reads(rng, size, align, points, unit):
+    """reads cut differently around an allocation-unit boundary B: the bytes right after B on their own (short read), as the
+    end of a read that starts in the unit before B, and inside one long request spanning B. The start distances are chosen
+    relative to the buffer size so that the spanning part is served from the alignment buffer (d < align), by a multi-buffer
+    backend request that begins before B (d > align) or by both."""
+    qs = []
+    B = rng.choice(points)
+    d = min(B, rng.choice([1, align // 2, align, align + 1, 2 * align, 3 * align + 5, unit - 1, unit, unit + rng.randrange(1, unit + 1)]))
+    n = d + rng.choice([1, align - 1, align, align + 1, 2 * align + 3, unit, unit + align, 2 * unit + 1])
+    n = min(n, 3 << 20)
+    short = ["O", B, rng.choice([1, 16, 512, align])]
+    long_ = rng.choice([[["O", B - d, n]], [["s", B - d, 0], ["r", n]], [["s", B - d, 0], ["p", n], ["r", rng.choice([1, d, d + 1])]],
+                        [["s", B - d, 0], ["ri", n]]])
+    pre = [["O", max(0, B - rng.choice([1, 7, align])), rng.choice([1, 7])]] if rng.random() < 0.5 else []
+    order = rng.choice([0, 1, 2])
+    qs += (pre + [short] + long_) if order == 0 else (pre + long_ + [short]) if order == 1 else ([short] + pre + long_ + [short])
+    return [q for q in qs if q[1] <= size + 1 or q[0] not in ("O", "s")]
+
+
+def gen_history(rng, size, align, ss, has_sectors, n, points=None, unit=None):
     qs = []
     maxr = min(size + 10, 300000)
+    groups = [gen_edge_reads(rng, size, align, points, unit) for _ in range(rng.choice([3, 5, 8]))] if points else []
     # "interrupted sequential read": read one buffer, go somewhere else for a small read, come back to exactly where the
     # first read stopped (state kept across calls — remembered file positions, shared handles — shows up here)
     for _ in range(rng.choice([0, 2, 4, 6])):
@@ -46,6 +80,7 @@ def gen_history(rng, size, align, ss, has_sectors, n):
             if has_sectors and rng.random() < 0.5:
                 c = max(1, align // ss)
                 qs += [["S", o1 // ss, c], ["S", o2 // ss, 1], ["S", o1 // ss + c, c]]
+    front = len(qs)
     for _ in range(n):
         k = rng.choice(["s0", "s0", "s1", "s2", "r", "r", "r", "ri", "p", "p", "O", "t", "ra"] + (["S", "S"] if has_sectors else []))
         if k == "s0":
@@ -74,7 +109,55 @@ def gen_history(rng, size, align, ss, has_sectors, n):
             if nsec:
                 s0 = rng.randrange(nsec)
                 qs.append(["S", s0, rng.randrange(1, min(nsec - s0, 300) + 1)])
+    for g in groups:                                    # the directed groups go anywhere between the random operations
+        at = rng.randrange(front, len(qs) + 1)
+        qs[at:at] = g
     return qs
+
+
+def is_error_op(q):
+    return (q[0] == "s" and q[2] == 0 and q[1] < 0) or (q[0] in ("r", "ri", "p") and q[1] < -1) or (q[0] in ("o", "O") and q[1] < 0)
+
+
+def qcow2_points(t, maps):
+    """cluster boundaries next to the clusters present in the given maps (0 = active, j+1 = snapshot j), a few sub-cluster
+    boundaries for extended L2 entries"""
+    cs, pts = t.cs, set()
+    for k in maps:
+        for c in t.keys[k]:
+            pts |= {c * cs, (c + 1) * cs}
+            if t.ext and c % 3 == 0:
+                pts.add(c * cs + (1 + c % 31) * (cs // 32))
+    return sorted(p for p in pts if 0 < p < t.size) or [min(cs, t.size - 1) or 1]
+
+
+def gen_view_history(rng, t, streams, align, n):
+    """one interleaved history over several streams of one image: [["v", stream index, op …]]. Every stream gets its own
+    random history (positions are per stream); the merge keeps each stream's order and switches stream every 1..4 operations;
+    cross-view probes read the same (offset, length) of a guest cluster through every stream, in varying order, twice."""
+    size, cs = t.size, t.cs
+    per = []
+    for sidx, view in enumerate(streams):
+        h = gen_history(rng, size, align, 512, False, n, points=qcow2_points(t, [view]) if rng.random() < 0.7 else None, unit=cs)
+        per.append([q for q in h if not is_error_op(q)])
+    merged, idx = [], [0] * len(streams)
+    while any(idx[s] < len(per[s]) for s in range(len(streams))):
+        s_ = rng.choice([s for s in range(len(streams)) if idx[s] < len(per[s])])
+        k = rng.randrange(1, 5)
+        merged += [["v", s_] + q for q in per[s_][idx[s_]: idx[s_] + k]]
+        idx[s_] += k
+    views = sorted(set(streams))
+    common = [c for c in sorted(set().union(*[set(t.keys[v]) for v in views])) if sum(1 for v in views if c in t.ent[v]) >= 2 and c * cs < size]
+    for _ in range(rng.choice([4, 6, 10])):
+        c = rng.choice(common) if common and rng.random() < 0.9 else rng.randrange(-(-size // cs))
+        off = c * cs + rng.choice([0, 0, 1, rng.randrange(cs), cs - 1])
+        ln = rng.choice([1, 17, 512, cs, cs + 1, align, rng.randrange(1, 2 * cs + 2)])
+        order = list(range(len(streams)))
+        rng.shuffle(order)
+        probe = [["v", s_, "O", min(off, size - 1), ln] for s_ in order + order[: rng.choice([0, 1, len(order)])]]
+        at = rng.randrange(len(merged) + 1)
+        merged[at:at] = probe
+    return merged
 
 
 def generate(seed, tier):
@@ -84,7 +167,34 @@ def generate(seed, tier):
     for cls in CLASSES:
         m = mod(cls)
         crng = random.Random(f"C08/{seed}/{tier}/{cls}")
-        for i in range(per):
+        for i in range((PER_QUICK if tier == "quick" else PER_THOROUGH).get(cls, per)):
+            draw_nops = lambda: crng.randrange(12, 60) if tier == "quick" else crng.randrange(20, 400)   # noqa: E731
+            if cls == "c01x":
+                gq = m.gen_qcow2
+                r = gq.gen_recipe(crng, "quick", nsnaps=0, ext=True, dense=True, sub_patterns=gq.SUB_PATTERNS_HOLES,
+                                  comp=crng.random() < 0.5, datafile=crng.choice([None, None, None, "arb"]), depth=1)
+                case = {"id": f"{cls}-{i}", "cls": cls, "recipe": r, "align": crng.choice([512, 1536, 4096, 8192, 8192, 65536, 1 << 20])}
+                t = m.truth_of(case)
+                case["queries"] = gen_history(crng, t.size, case["align"], 512, False, draw_nops() // 2, points=qcow2_points(t, [0]), unit=t.cs)
+                cases.append(case)
+                continue
+            if cls == "c01v":
+                gq = m.gen_qcow2
+                r = gq.gen_recipe(crng, "quick", nsnaps=crng.choice([1, 2, 2, 3]), snap_cow=0.85, dense=True, datafile=None, depth=1,
+                                  kinds=["c", "c", "c", "n", "s", "z"], **({"cluster_bits": crng.choice([9, 9, 10, 12])} if i % 3 == 0 else {}))
+                case = {"id": f"{cls}-{i}", "cls": cls, "recipe": r, "align": crng.choice([512, 1536, 4096, 8192, 8192, 65536, 1 << 20])}
+                t = m.truth_of(case)
+                ns = len(r["snaps"])
+                # stream 0 = the active image object; the others are snapshots[view - 1].open(), opened at their first operation
+                streams = [0] + crng.sample(range(1, ns + 1), min(ns, crng.choice([1, 2, 2])))
+                if crng.random() < 0.3:
+                    streams.append(crng.choice(streams[1:]))              # the same snapshot opened twice: two streams, one view
+                if crng.random() < 0.15:
+                    streams = streams[1:]                                  # snapshot views only
+                case["streams"] = streams
+                case["queries"] = gen_view_history(crng, t, streams, case["align"], max(6, draw_nops() // len(streams)))
+                cases.append(case)
+                continue
             if cls == "c03":
                 r = m.gen_vhdx.gen_recipe(crng, tier, depth=1, big=(i % 10 == 3))
                 ss = r["layers"][-1]["ss"]
@@ -117,7 +227,7 @@ def generate(seed, tier):
             align = crng.choice(aligns)
             case = {"id": f"{cls}-{i}", "cls": cls, "recipe": r, "align": align}
             size, _, ss2 = m.truth_reader(case)
-            case["queries"] = gen_history(crng, size, align, ss2, cls in ("c03", "c02"), crng.randrange(12, 60) if tier == "quick" else crng.randrange(20, 400))
+            case["queries"] = gen_history(crng, size, align, ss2, cls in ("c03", "c02"), draw_nops())
             cases.append(case)
     return cases
 
@@ -129,17 +239,60 @@ def group_by_env(cases):
     return [({"DISSECT_STREAM_BUFFER_SIZE": a}, cs) for a, cs in sorted(by.items())]
 
 
+def split_streams(case):
+    """per-stream sub-histories of a multi-view history, and the stream index of every operation"""
+    per = [[] for _ in case["streams"]]
+    order = []
+    for q in case["queries"]:
+        per[q[1]].append(q[2:])
+        order.append(q[1])
+    return per, order
+
+
+def merge_streams(order, answers):
+    """per-stream answer lists -> one list in history order; ends at the first error (every stream stops at its first error, and
+    so does the whole history) or where a stream has no answer"""
+    it = [0] * len(answers)
+    out = []
+    for s in order:
+        if answers[s] is None or it[s] >= len(answers[s]):
+            break
+        out.append(answers[s][it[s]])
+        it[s] += 1
+        if out[-1] == "E":
+            break
+    return out
+
+
 def build(case):
     m = mod(case["cls"])
     b = m.build(dict(case, queries=[]))
-    size, reader, ss = m.truth_reader(case)
-    b.truth = core.truth_ops(size, reader, case["queries"], sector_size=ss)
-    qs = case["queries"]
+    if case["cls"] == "c01v":
+        t = m.truth_of(case)
+        per, order = split_streams(case)
+        b.truth = merge_streams(order, [core.truth_ops(t.size, t.read if v == 0 else t.snapshot_reader(v - 1), per[s])
+                                        for s, v in enumerate(case["streams"])])
+        qs = [q[2:] for q in case["queries"]]
+        cs = t.cs
+        views = sorted(set(case["streams"]))
+        # guest clusters that are compressed in two of the views read, with different content / through the same blob
+        cdiff = sum(1 for c in t.ent[views[0]] if sum(1 for v in views if c in t.ent[v] and t.ent[v][c][0][0] == "c") >= 2
+                    and len({t.ent[v][c][1] for v in views if c in t.ent[v] and t.ent[v][c][0][0] == "c"}) >= 2)
+        cshared = sum(1 for v in views[1:] for c, e in t.ent[v].items() if e[0][0] == "c" and views[0] == 0 and t.ent[0].get(c) == e)
+        b.info["branches"] = b.info["branches"] + [f"streams{len(case['streams'])}", f"views{len(views)}"] + \
+            (["same_cluster_compressed_differently"] if cdiff else []) + (["shared_compressed_blob"] if cshared else []) + \
+            (["snapshot_twice"] if len(views) < len(case["streams"]) else [])
+        b.info["multi"] = len(views) >= 2
+    else:
+        size, reader, ss = m.truth_reader(case)
+        b.truth = core.truth_ops(size, reader, case["queries"], sector_size=ss)
+        qs = case["queries"]
     a = case["align"]
     b.info["has_seek"] = any(q[0] == "s" for q in qs)
     b.info["has_peek"] = any(q[0] == "p" for q in qs)
     b.info["big_read"] = any(q[0] in ("r", "ri", "p", "O") and q[-1] > a for q in qs)
-    b.info["branches"] = [case["cls"], f"align{a}"] + sorted({q[0] for q in qs})
+    extra = [x for x in b.info.get("branches", []) if case["cls"] in ("c01x", "c01v") and (x in ("ext", "std") or x.startswith(("streams", "views", "same_", "shared_", "snapshot_")))]
+    b.info["branches"] = [case["cls"], f"align{a}"] + sorted({q[0] for q in qs}) + extra
     return b
 
 
@@ -148,14 +301,47 @@ def impl_run(case, built):
     s = m.open_impl(case, built)
     if s.align != case["align"]:
         raise RuntimeError(f"stream align {s.align} != case align {case['align']}")
+    if case["cls"] == "c01v":
+        # all streams work on the file handle(s) of `s`; a snapshot view is opened when its stream is first used
+        objs = {k: s for k, v in enumerate(case["streams"]) if v == 0}
+        answers, errors = [], {}
+        for i, q in enumerate(case["queries"]):
+            k = q[1]
+            try:
+                if k not in objs:
+                    objs[k] = s.snapshots[case["streams"][k] - 1].open()
+            except Exception as e:  # noqa
+                answers.append("E")
+                errors[str(i)] = f"open: {type(e).__name__}: {e}"[:300]
+                break
+            r = core.impl_ops(objs[k], [q[2:]])
+            answers += r["answers"]
+            if r["errors"]:
+                errors[str(i)] = list(r["errors"].values())[0]
+                break
+        return {"answers": answers, "errors": errors}
     return core.impl_ops_sec(s, case["queries"])
 
 
 def model_lines(case, built):
     m = mod(case["cls"])
+    if case["cls"] == "c01v":
+        # one model run per stream on that stream's sub-history: by `snapshot_view_independent` / `active_view_independent`
+        # (HvProps/C08.lean) nothing a view does is visible in another, so the answer to the interleaved history is the
+        # interleaving of these answers; then the hypotheses of those theorems for every view in use
+        toks, a = built.info["tokens"], case["align"]
+        tk = f"{len(toks)} " + " ".join(toks)
+        per, _ = split_streams(case)
+        lines = core.file_lines(built.files)
+        for k, v in enumerate(case["streams"]):
+            ops = " ".join(core.op_tokens(per[k]))
+            lines.append(f"qcow2.stream {a} {tk} {ops}" if v == 0 else f"qcow2.snap {a} {v - 1} {tk} {ops}")
+        for v in sorted(set(case["streams"])):
+            lines.append(f"qcow2.open {a} " + " ".join(toks) if v == 0 else f"qcow2.snapwf {a} {v - 1} " + " ".join(toks))
+        return lines
     ops = " ".join(core.op_tokens(case["queries"]))
     lines = core.file_lines(built.files) + [m.open_line(case, built), m.stream_prefix(case, built) + " " + ops]
-    if case["cls"] == "c01" and m.spec_line_wanted(built.info["tokens"]):
+    if case["cls"] in ("c01", "c01x") and m.spec_line_wanted(built.info["tokens"]):
         # QCOW2: the same history answered from the pointwise specification `guest` (an instance of
         # `qcow2_stream_refines_array` on this image, buffer size and history)
         toks = built.info["tokens"]
@@ -167,10 +353,17 @@ def model_parse(case, built, out):
     """wf: the model's well-formedness flag of the class. QCOW2 (`qcow2.open <align> …`): every contributing layer satisfies
     `conformantToB q (roundUp size align)` — tables well-formed up to the end of the last stream buffer, the hypothesis of
     `qcow2_stream_refines_array` / `qcow2_backendOK` for this buffer size (Hv/Qcow2Stream.lean, `qcowWf` in the driver)."""
+    if case["cls"] == "c01v":
+        ns = len(case["streams"])
+        _, order = split_streams(case)
+        per = [core.parse_stream_answer(l) for l in out[:ns]] if len(out) >= ns else None
+        wfl = out[ns:]
+        wf = bool(per) and len(wfl) == len(set(case["streams"])) and all(l.startswith("ok") and "wf=1" in l for l in wfl)
+        return {"answers": merge_streams(order, per) if per and all(p is not None for p in per) else None, "wf": wf, "open": wfl}
     wf = ("wf=1" in out[0]) if out and out[0].startswith("ok") else None
     answers = core.parse_stream_answer(out[1]) if len(out) > 1 else None
     rec = {"answers": answers, "wf": wf, "open": out[0] if out else None}
-    if case["cls"] == "c01" and len(out) > 2 and wf:
+    if case["cls"] in ("c01", "c01x") and len(out) > 2 and wf:
         spec = core.parse_stream_answer(out[2])
         rec["spec_eq_model"] = (spec == answers)
         if spec != answers:
@@ -180,7 +373,7 @@ def model_parse(case, built, out):
 
 def nontrivial(case, built, model):
     i = built.info
-    return bool(model.get("wf")) and i["has_seek"] and i["has_peek"] and i["big_read"]
+    return bool(model.get("wf")) and i["has_seek"] and i["has_peek"] and i["big_read"] and i.get("multi", True)
 
 
 def search(seed, broken, budget):
